@@ -36,11 +36,7 @@ func main() {
 	hfSessions(run, run.Pick(150, 1500))
 	fetchSessions(run, run.Pick(500, 6000))
 	seqFilter(run)
-	if lateFinderReply(run) {
-		run.Count("late-finder-reply:syncer-actor-blocked")
-	} else {
-		run.Count("late-finder-reply:handled")
-	}
+	lateFinderReply(run)
 	svcSessions(run, run.Pick(40, 300))
 	recvSessions(run, run.Pick(200, 2000))
 	e2eRuns(run, run.Pick(60, 500))
